@@ -2,7 +2,8 @@
   Protocol operations of the interpreter model (Model/Eval.lean).
 
   exec      sources, files (S-expr of the real parser's trees), globals, template, data, ij, options
-            -> OK <hex output> chunks=<n> | ERR <hex of the output written before the error> | PANIC | FUELOUT
+            -> OK <hex output> chunks=<n> | ERR <hex of the output written before the error> line=<n> file=<hex>
+               (what the returned ErrFilePos reports; line=0 file=- for an error without a position) | PANIC | FUELOUT
   evalexpr  source (ignored), tree, globals -> OK <canonical value> | ERR
   setglobals sources (ignored), files, globals -> OK | ERR
 
@@ -133,7 +134,7 @@ def answer (o : Opts) (r : Outcome) : String :=
   let bytes := r.chunks.flatten
   match r.cls with
   | .ok => "OK " ++ showOut o bytes ++ " chunks=" ++ toString r.chunks.length
-  | .err => "ERR " ++ showOut o bytes
+  | .err => "ERR " ++ showOut o bytes ++ " line=" ++ toString r.line ++ " file=" ++ Bytes.toHexWire r.file
   | .panic => "PANIC"
   | .fuelOut => "FUELOUT"
 
